@@ -124,3 +124,32 @@ Lemma slashnormalize_nonempty s : slashnormalize s <> [].
 Proof.
   pose proof (slashnormalize_starts_slash s). destruct (slashnormalize s); [discriminate|discriminate].
 Qed.
+
+(* ---------- virtual selectors and the type rewriter ---------- *)
+Lemma virtual_real_is_prefix s : exists t, s = fst (virtual_split s) ++ t.
+Proof.
+  unfold virtual_split.
+  destruct (find [QMARK] s) as [i|]; [|destruct (find [PIPE] s) as [i|]]; simpl.
+  - exists (skipn i s). symmetry. apply firstn_skipn.
+  - exists (skipn i s). symmetry. apply firstn_skipn.
+  - exists []. now rewrite app_nil_r.
+Qed.
+
+Lemma rewriter_target_is_suffix s : exists a, s = a ++ rewriter_target s.
+Proof. exists (firstn 2 s). symmetry. apply firstn_skipn. Qed.
+
+Lemma rewriter_target_starts_slash s :
+  rewriter_accepts s = true -> starts_with_slash (rewriter_target s) = true.
+Proof.
+  destruct s as [|a [|b [|c r]]]; simpl; try discriminate.
+  intros H. apply andb_true_iff in H as [_ H]. exact H.
+Qed.
+
+Lemma virtual_real_starts_slash s :
+  starts_with_slash s = true -> fst (virtual_split s) <> [] ->
+  starts_with_slash (fst (virtual_split s)) = true.
+Proof.
+  intros Hs Hn. destruct (virtual_real_is_prefix s) as [t E].
+  destruct (fst (virtual_split s)) as [|c r]; [congruence|].
+  rewrite E in Hs. exact Hs.
+Qed.
